@@ -64,17 +64,19 @@ class ScopeContext:
         exc_val: BaseException | None,
         exc_tb: TracebackType | None,
     ) -> None:
-        self._metrics_context.__exit__(
-            exc_type=exc_type,
-            exc_val=exc_val,
-            exc_tb=exc_tb,
-        )
+        try:
+            self._metrics_context.__exit__(
+                exc_type=exc_type,
+                exc_val=exc_val,
+                exc_tb=exc_tb,
+            )
 
-        self._state_context.__exit__(
-            exc_type=exc_type,
-            exc_val=exc_val,
-            exc_tb=exc_tb,
-        )
+        finally:  # restore the state whatever happens while finishing the metrics scope
+            self._state_context.__exit__(
+                exc_type=exc_type,
+                exc_val=exc_val,
+                exc_tb=exc_tb,
+            )
 
     async def __aenter__(self) -> None:
         await self._task_group_context.__aenter__()
@@ -136,17 +138,19 @@ class ScopeContext:
                 )
 
             finally:
-                self._metrics_context.__exit__(
-                    exc_type=exc_type,
-                    exc_val=exc_val,
-                    exc_tb=exc_tb,
-                )
+                try:
+                    self._metrics_context.__exit__(
+                        exc_type=exc_type,
+                        exc_val=exc_val,
+                        exc_tb=exc_tb,
+                    )
 
-                self._state_context.__exit__(
-                    exc_type=exc_type,
-                    exc_val=exc_val,
-                    exc_tb=exc_tb,
-                )
+                finally:  # restore the state whatever happens while finishing the metrics scope
+                    self._state_context.__exit__(
+                        exc_type=exc_type,
+                        exc_val=exc_val,
+                        exc_tb=exc_tb,
+                    )
 
 
 @final
